@@ -468,6 +468,7 @@ un = match("match (info, maps) { (Some(info), Some(_maps)) => { warn!(\"UnifiedM
            "(None, Some(maps)) => Some(Self::<m:ident>(<mx:ident>)), (None, None) => None, }",
            block_after(mdsrc, r"pub fn new\(\s*info: Option<MinidumpMemoryInfoList<'a>>,\s*maps: Option<MinidumpLinuxMaps<'a>>,\s*\) -> Option<Self> \{", UN), UN)
 for k in ("bx", "ix", "mx"):
+    un[k] = un[k].lstrip("_")          # `_maps` is the same binding, marked unused
     if un[k] not in ("info", "maps"):
         die(UN + ": unknown binding " + un[k])
 if not re.search(r"pub enum UnifiedMemoryList<'a> \{\s*Memory\(MinidumpMemoryList<'a>\),\s*Memory64\(MinidumpMemory64List<'a>\),\s*\}", strip_comments(mdsrc)):
